@@ -63,16 +63,16 @@ BOUNDS = {
         "metrics": "E<=3, T<=4; {0,.5,1} complete for E*T<=6; (2,4),(3,3): binary predictions x {0,.5,1} observations; "
                    "(3,4): binary predictions x 1 graded observation vector x partitions under one label map",
         "h5": "12 shapes x all labellings x 4 sample-name menus, graded distinct values",
-        "effects": "arity 2: <=3 rows (6174 arrays); arity 3: <=3 rows (160434 arrays); 1 observation vector",
+        "effects": "arity 2: <=3 rows (6174 arrays); arity 3: <=3 rows (160434 arrays); 1 observation vector; arity 2 again under 5 non-contiguous (treatment id, sample id) relabellings, and ids {-1,0,1,3} / {-1,4,0,2} with 3 rows",
         "synergy": "arity 2, ids {-1,0,1}: <=3 rows (4368 arrays) x strict/lenient",
         "cmse": "E<=3 rows, T<=3 thetas, E*T<=6, predictions and observations over {0,.5,1}",
-        "corr": "K1 (2 samples, 3 mapping rows): {0,1}^6 tables; K2 (3 samples): {0,1}^9 tables; K2..K7 (repeated drug name, no control, arity 3, custom non-sorted mappings with an absent sample and an unused treatment, two control rows): 6 graded tables x T in 1..3; generate_full_combinatoric_space on every shape x sample",
+        "corr": "K1 (2 samples, 3 mapping rows): {0,1}^6 tables; K2 (3 samples): {0,1}^9 tables; K2..K7 (repeated drug name, no control, arity 3, custom non-sorted mappings with an absent sample and an unused treatment, two control rows): 6 graded tables x T in 1..3; generate_full_combinatoric_space on every shape x sample; K2/K3/K6 graded tables rescaled by 1e-7, 1e-8, 1e6",
     },
     "thorough": {
         "metrics": "E<=3, T<=4; {0,.5,1} complete for E*T<=6 and for (2,4); (3,3): {0,.5,1} predictions x {0,.5,1} "
                    "observations; (3,4): binary predictions x {0,.5,1} observations; all labellings",
         "h5": "12 shapes x all labellings x 4 sample-name menus, graded values and a special-value menu (-0.0, denormal, 1e300, inf, nan)",
-        "effects": "arity 2: <=4 rows (111150 arrays); arity 3: <=3 rows, and 4 rows over ids {-1,0}; 2 observation vectors",
+        "effects": "arity 2: <=4 rows (111150 arrays); arity 3: <=3 rows, and 4 rows over ids {-1,0}; 2 observation vectors; non-contiguous relabellings as quick",
         "synergy": "arity 2, ids {-1,0,1}: <=4 rows (69904 arrays); ids {-1,0,1,2}: <=3 rows; x strict/lenient; 2 observation vectors",
         "cmse": "E<=3 rows, T<=3 thetas, E*T<=9 (E*T=9 binary), predictions and observations over {0,.5,1}",
         "corr": "K1: {0,.5,1}^6 tables x T in 1..2; K2: {0,.5,1}^9 tables; K2..K7: 24 graded tables x T in 1..3; generate_full_combinatoric_space on every shape x sample",
@@ -551,6 +551,15 @@ def effects_plan(tier):
                     for f in range(nopt):
                         for g in range(nopt):
                             items.append({"fam": "effects", "arity": arity, "alpha": alpha, "rows": n, "first": [f, g], "obs": ov})
+    # the same enumeration with ids that are NOT the contiguous range 0..n-1 (a plate subset, a screen encoded against a
+    # larger experiment space): gaps, not starting at 0, descending; and sample ids with a gap
+    for idmap, smap in (([0, 2], [0, 1]), ([1, 3], [0, 1]), ([5, 2], [0, 1]), ([0, 1], [1, 3]), ([0, 3], [2, 0])):
+        for n in (1, 2, 3):
+            items.append({"fam": "effects", "arity": 2, "alpha": [-1, 0, 1], "rows": n, "first": None, "obs": 0, "idmap": idmap, "smap": smap})
+    for idmap in ([0, 1, 3], [4, 0, 2]):
+        nopt = len(row_options(2, [-1, 0, 1, 2]))
+        for f in range(nopt):
+            items.append({"fam": "effects", "arity": 2, "alpha": [-1, 0, 1, 2], "rows": 3, "first": [f], "obs": 0, "idmap": idmap, "smap": [0, 1]})
     return items
 
 
@@ -559,9 +568,13 @@ def id_arrays(item, synergy=False):
     n = item["rows"]
     first = item["first"] or []
     head = [opts[f] for f in first]
+    idmap, smap = item.get("idmap"), item.get("smap")
     for rest in itertools.product(opts, repeat=n - len(head)):
         rows = head + list(rest)
-        yield [r[0] for r in rows], [r[1] for r in rows]
+        if idmap is None:
+            yield [r[0] for r in rows], [r[1] for r in rows]
+        else:
+            yield [smap[r[0]] for r in rows], [[t if t == CTL else idmap[t] for t in r[1]] for r in rows]
 
 
 def effects_run(item, col):
@@ -1017,6 +1030,11 @@ def corr_plan(tier):
     for shape in ("K3", "K4", "K5", "K6", "K7", "K2"):
         for T in (1, 2, 3):
             items.append({"fam": "corr", "shape": shape, "mode": "graded", "G": G, "T": T})
+    # a correlation does not depend on the scale of the profiles: the graded tables again, multiplied by 1e-7 / 1e-8 / 1e6
+    # (multiplication keeps full relative precision, so the loop evaluation is as exact as before)
+    for shape in ("K2", "K3", "K6"):
+        for scale in (1e-7, 1e-8, 1e6):
+            items.append({"fam": "corr", "shape": shape, "mode": "graded", "G": G, "T": 2, "scale": scale})
     return items
 
 
@@ -1031,6 +1049,8 @@ def corr_run(item, col):
     if item["mode"] == "graded":
         for g in range(item["G"]):
             tables = [graded_table(keys, g, k) for k in range(T)]
+            if item.get("scale"):
+                tables = [{k_: v * item["scale"] for k_, v in t.items()} for t in tables]
             case = {"fam": "corr", "shape": shape, "tables": [_tab_json(t) for t in tables]}
             check_corr(case, col)
             if g == 1:
